@@ -333,6 +333,31 @@ def run(check):
         else:
             trig = [{"kind": "deploy-call", "src": "job", "nth": 2, "action": "cancel:0"}]
         closed_cases.append(({"id": "c15-x%04d" % j, "files": prog.files(), "scripts": scripts, "runs": [{"input": {"tag": "T1"}}], "triggers": trig}, cause, consumer, sorted(picked)))
+    # a source stopped by its stop condition WHILE it runs, whose plugin answers the cancel signal with a regular output: it has
+    # finished with that output - its closed stage can no longer happen, a wait-optional member on it is evaluated as absent
+    for j in range(check.pick(18, 120)):
+        rng = random.Random(derive_seed(check.seed, "c15-stopped-running", j))
+        on_cancel = ["success", "error"][j % 2]
+        consumer = rng.choice(["output", "step", "wait_for"])
+        job = gen.plugin_step("job", Expr(In("tag")), stop_if=Expr(Ref("S", "outputs", "success", "tag")))
+        steps = [job, gen.plugin_step("S", Expr(In("tag")))]
+        members = {"r": Opt(Ref("job", "outputs", "success", "tag"), True), "e": Opt(Ref("job", "outputs", "error", "reason"), True), "c": Opt(Ref("job", "closed", "result"), True), "k": Opt(Ref("job", "crashed", "error", "output"), True)}
+        picked = {k: members[k] for k in rng.choice([("c",), ("r", "c"), ("r", "e", "c"), ("c", "k"), ("r", "e", "c", "k")])}
+        if consumer == "step":
+            steps.append(gen.plugin_step("C", Expr(In("tag")), extra_input={"a": picked}))
+            outs = {"report": {"c": gen.tagref("C")}}
+        elif consumer == "wait_for":
+            steps.append(gen.plugin_step("C", Expr(In("tag")), wait_for=picked))
+            outs = {"report": {"c": gen.tagref("C")}}
+        else:
+            outs = {"report": dict(picked, tag=Expr(In("tag")))}
+        rng.shuffle(steps)
+        prog = Program(steps, outs, gen.BASE_INPUT)
+        scripts = gen.make_scripts(steps, {})
+        scripts["job"]["exec"] = {"outcome": "hang", "on_cancel": on_cancel}
+        scripts["S"]["exec"] = {"outcome": "success", "gate": "running"}
+        trig = [{"kind": "exec-start", "src": "job", "nth": 1, "action": "open:running"}]
+        closed_cases.append(({"id": "c15-y%04d" % j, "files": prog.files(), "scripts": scripts, "runs": [{"input": {"tag": "T1"}}], "triggers": trig}, "stop-while-running:" + on_cancel, consumer, sorted(picked)))
     stats = {"kinds": {}, "present": 0, "absent": 0, "discriminators": {}}
     with harness.Runner() as rn:
         if not rn.hang_oracle_works():
@@ -343,6 +368,8 @@ def run(check):
         o = xout.get(case["id"], {})
         check.count()
         shape = "source closed during its deployment (%s), wait-optional %s in a %s" % (cause, "+".join(picked), consumer)
+        if cause.startswith("stop-while-running"):
+            shape = "source stopped while running, its plugin answered the signal with its %s output; wait-optional %s in a %s" % (cause.split(":")[1], "+".join(picked), consumer)
         if "death" in o:
             d = o["death"]
             if d["kind"] == "deadlock":
@@ -353,23 +380,27 @@ def run(check):
         res = o["result"]
         ev = res.get("events") or []
         run = (res.get("runs") or [{}])[0]
-        job_ran = any(e["kind"] == "exec-start" and e["src"] == "job" for e in ev)
+        job_ran = any(e["kind"] == "exec-start" and e["src"] == "job" for e in ev) and not cause.startswith("stop-while-running")
         if res.get("parse_err") or res.get("prepare_err") or job_ran:
             check.inconclusive_case(case["id"], "construction did not take effect: %s" % (res.get("parse_err") or res.get("prepare_err") or "job was executed"))
             continue
         stats["kinds"]["closed-during-deployment:" + cause] = stats["kinds"].get("closed-during-deployment:" + cause, 0) + 1
         if run.get("out_id") != "report":
             check.report("tag@wait-optional-on-source-closed-during-deployment:%s->%s" % (cause, run.get("err_type") or run.get("out_id")),
-                         "%s: the source finished (closed) but the run did not return the output that only needs the members evaluated: %s" % (shape, (run.get("err") or str(run.get("out_id")))[:200]),
+                         "%s: the source finished but the run did not return the output that only needs the members evaluated: %s" % (shape, (run.get("err") or str(run.get("out_id")))[:200]),
                          {"case": case, "result": runfam.strip(res)})
         else:
             data = ref.denum(run.get("data")) or {}
             if consumer == "step":
                 cin = [ref.denum((e.get("data") or {}).get("raw") or {}).get("a") for e in ev if e["kind"] == "exec-start" and e["src"] == "C"]
                 data = (cin or [{}])[0] or {}
-            wrong = [k for k in ("r", "d") if k in data]
+            if consumer in ("step", "wait_for"):
+                cin = [ref.denum((e.get("data") or {}).get("raw") or {}) for e in ev if e["kind"] == "exec-start" and e["src"] == "C"]
+                data = ((cin or [{}])[0] or {}).get("a") or {}
+            absent = {"stop": ("r", "d"), "abort": ("r", "d"), "stop-while-running:success": ("e", "c", "k"), "stop-while-running:error": ("r", "c", "k")}[cause]
+            wrong = [k for k in absent if k in data]
             if wrong:
-                check.report("tag@wait-optional-present-without-source", "%s: members %s are present although the job neither ran nor failed to deploy: %r" % (shape, wrong, data), {"case": case, "result": runfam.strip(res)})
+                check.report("tag@wait-optional-present-without-source", "%s: members %s are present although their sources were not produced: %r" % (shape, wrong, data), {"case": case, "result": runfam.strip(res)})
         check.nontrivial(shape)
     by_id = {c["id"]: (c, s, g) for c, s, g in items}
     for cid in sorted(out):
